@@ -134,6 +134,9 @@ func (c *Ctx) MatchKnownInput(sig map[string]string, input string) (f *KnownFind
 	if k == nil {
 		return nil, nil
 	}
+	if input == "" {
+		return k, k
+	}
 	if v := os.Getenv("VERIF_COLLECT_KNOWN"); v != "" {
 		// development aid (never set by a registered command): record where listed findings occur
 		c.mu.Lock()
